@@ -106,7 +106,7 @@ Definition fold_bool1 (c : opclass) (a : Z) : fres bool := fres_map truthy (fold
 
 (** literal casts (expressions.py): IntValue.cast / BoolValue.cast / StringValue.cast *)
 Definition fold_int_to_bool (d : Z) : bool := truthy d.              (* bool(self.data) *)
-Definition fold_int_to_byte (d : Z) : Z := d.                        (* no `& 0xFF` *)
+Definition fold_int_to_byte (d : Z) : Z := d mod 256.                (* self.data & 0xFF *)
 Definition fold_byte_to_int (d : Z) : Z := d.
 Definition fold_bool_to_int (b : bool) : Z := b2z b.                 (* int(self.data) *)
 Definition fold_string_to_bool (len : nat) : bool := negb (Nat.eqb len 0).  (* bool(bytes) *)
@@ -491,31 +491,24 @@ Proof.
     exists v. split; [exact Ev|]. exact Rv.
 Qed.
 
-(** 4 / (258 is byte): folded 4 // 258 = 0, run time 4 / 2 = 2 (IntValue.cast(BYTE) keeps 258) *)
-Theorem fold_byte_cast_refuted : exists w e v r,
-  1 <= w /\ cfold e = FVal v /\ crt w e = RVal r /\ r <> wrap w v.
-Proof.
-  exists 2, (CBin ODiv (CLit 4) (CIsInt (CIsByte (CLit 258)))), 0, 2.
-  split; [lia|]. split; [reflexivity|]. split; [reflexivity|]. vm_compute. discriminate.
-Qed.
-
-(** (300 is byte) is int: folded 300, run time 44 *)
-Theorem fold_byte_int_roundtrip_refuted : exists w e v r,
-  1 <= w /\ cfold e = FVal v /\ crt w e = RVal r /\ r <> wrap w v.
-Proof.
-  exists 2, (CIsInt (CIsByte (CLit 300))), 300, 44.
-  split; [lia|]. split; [reflexivity|]. split; [reflexivity|]. vm_compute. discriminate.
-Qed.
-
-(** The run-time byte cast agrees with the folded one exactly on [0, 256) *)
-Lemma fold_byte_cast_agrees_small : forall w a, 1 <= w -> 0 <= a < 256 ->
+(** The folded byte cast keeps the low byte (IntValue.cast(BYTE): `self.data & 0xFF`), so it agrees
+    with the run-time cast for EVERY value, in range or not: 4 / (258 is byte) is 2 both ways. *)
+Lemma fold_byte_cast_agrees : forall w a, 1 <= w ->
   rt_int_to_byte (wrap w a) = fold_int_to_byte a.
 Proof.
-  intros w a Hw Ha. unfold rt_int_to_byte, fold_int_to_byte.
-  assert (256 <= modulus w).
-  { unfold modulus. change 256 with (2 ^ 8). apply Z.pow_le_mono_r; lia. }
-  rewrite wrap_nonneg_small by lia. apply Z.mod_small. lia.
+  intros w a Hw. unfold rt_int_to_byte, fold_int_to_byte, wrap, modulus.
+  assert (Hp : 0 < 2 ^ (8 * w)) by (apply Z.pow_pos_nonneg; lia).
+  assert (Hd : (256 | 2 ^ (8 * w))).
+  { exists (2 ^ (8 * w - 8)). change 256 with (2 ^ 8). rewrite <- Z.pow_add_r by lia. f_equal. lia. }
+  symmetry. apply Znumtheory.Zmod_div_mod; [lia | exact Hp | exact Hd].
 Qed.
+
+Lemma fold_byte_cast_examples :
+  (cfold (CBin ODiv (CLit 4) (CIsInt (CIsByte (CLit 258)))) = FVal 2) /\
+  (crt 2 (CBin ODiv (CLit 4) (CIsInt (CIsByte (CLit 258)))) = RVal 2) /\
+  (cfold (CIsInt (CIsByte (CLit 300))) = FVal 44) /\ (crt 2 (CIsInt (CIsByte (CLit 300))) = RVal 44) /\
+  (cfold (CIsInt (CIsByte (CLit (-1)))) = FVal 255) /\ (crt 3 (CIsInt (CIsByte (CLit (-1)))) = RVal 255).
+Proof. repeat split; vm_compute; reflexivity. Qed.
 
 (** The C14 statement restricted to what holds, and the full statement it falls short of. *)
 Definition C14_full_statement : Prop :=
@@ -528,7 +521,7 @@ Definition C14_full_statement : Prop :=
 
 Theorem C14_full_statement_refuted : ~ C14_full_statement.
 Proof.
-  intros H. specialize (H 2 (CIsInt (CIsByte (CLit 300)))). simpl in H.
+  intros H. specialize (H 2 (CBin ODiv (CLit 40000) (CLit 3))). simpl in H.
   assert (1 <= 2) as H1 by lia. specialize (H H1). vm_compute in H. discriminate.
 Qed.
 
